@@ -147,13 +147,10 @@ fn v_cat<T: Message + Default + Clone + Glue>(s: &Arc<Schema>, ma: &DynMsg, mb: 
     let mut cat = a.encode_to_vec();
     cat.extend_from_slice(&eb);
     let whole = T::decode(Bytes::from(cat.clone())).map(|t| to_dyn(&t, s));
-    let mut step = a.clone();
-    let stepped = step.merge(Bytes::from(eb)).map(|_| to_dyn(&step, s));
+    // decode the first encoding, then merge the second into the result
+    let stepped = T::decode(Bytes::from(a.encode_to_vec())).and_then(|mut step| step.merge(Bytes::from(eb)).map(|_| to_dyn(&step, s)));
     match (&whole, &stepped) {
         (Ok(x), Ok(y)) if m_same(x, y) => {}
-        // `a` keeps a negative zero that its encoding drops (known finding about map values, flag off)
-        (Ok(x), Ok(y)) if !FLAG_ON && m_same(&norm_negzero(x), &norm_negzero(y)) =>
-            o.fail("C18", format!("decode(a ++ b) differs from decode a then merge b only in map values equal to their default under IEEE == (negative zero dropped): {} vs {}", m_sexp(x), m_sexp(y))),
         _ => o.fail("C18", format!("decode(a ++ b) {:?} != decode a then merge b {:?}", whole.as_ref().map(m_sexp).map_err(|e| e.to_string()), stepped.as_ref().map(m_sexp).map_err(|e| e.to_string()))),
     }
     let dynamic = DynMsg::decode_dyn(s, T::IDX, false, Bytes::from(cat)).map(|m| (m, 0));
